@@ -39,10 +39,12 @@ class SymEnv:
     def __init__(self, eng):
         self.eng = eng
         self.want_final = True
+        self.crash_is_violation = True
         self.reset()
 
     def reset(self):
         self.violations = []
+        self.aborted = []
         self.checked = {}
         self.notes = []
         self.observables = {}
@@ -82,6 +84,9 @@ class SymEnv:
 
     def crash(self, exc):
         label = "crash:" + builtins.type(exc).__name__
+        if not self.crash_is_violation:
+            self.aborted.append(f"{builtins.type(exc).__name__}: {exc}"[:200])
+            return
         m = self.eng.find(True)
         tb = traceback.extract_tb(exc.__traceback__)
         where = " <- ".join(f"{f.filename.split('/')[-1]}:{f.lineno}" for f in reversed(tb[-4:]))
@@ -216,19 +221,26 @@ def _run_path(mod, env, world):
 def job(args):
     """Explore one world (or one prefix subtree of it) in a worker process."""
     modname, widx, world, prefix, depth_limit, limits = args
+    if os.environ.get("VERIF_JOB_WATCHDOG"):
+        import faulthandler
+
+        faulthandler.dump_traceback_later(int(os.environ["VERIF_JOB_WATCHDOG"]), exit=True)
     mod = _load(modname)
     from . import cover
 
     t0 = time.time()
     eng = Engine(timeout_ms=limits.get("solver_timeout_ms", 20000))
     env = SymEnv(eng)
-    out = {
+    env.crash_is_violation = getattr(mod, "CRASH_IS_VIOLATION", True)
+    out = {"aborted": 0, "aborted_samples": [],
         "widx": widx, "paths": 0, "status": {}, "violations": [], "prefixes": [], "problems": [],
         "checked": {}, "samples": [], "validated": 0, "mismatch": [],
     }
     nsample = limits.get("samples_per_job", 2)
     nvalidate = limits.get("validate_per_job", 2)
     max_paths = limits.get("max_paths")
+    if os.environ.get("VERIF_MAX_PATHS"):
+        max_paths = int(os.environ["VERIF_MAX_PATHS"])
     seen_v = set()
 
     def fn():
@@ -253,6 +265,10 @@ def job(args):
             pass
         for lab, n in env.checked.items():
             out["checked"][lab] = out["checked"].get(lab, 0) + n
+        if env.aborted:
+            out["aborted"] += 1
+            if len(out["aborted_samples"]) < 2:
+                out["aborted_samples"].append(env.aborted[0])
         for v in env.violations:
             sig = (v["label"], json.dumps(v["assignment"], sort_keys=True))
             k = v["label"]
@@ -383,6 +399,8 @@ def main(mod, argv=None):
             batch, pending = pending, []
             for out in pool.imap_unordered(job, batch):
                 results[out["widx"]].append(out)
+                if os.environ.get("VERIF_VERBOSE") == "2":
+                    print(f"  job done world={worlds[out['widx']]['name']} paths={out['paths']} wall={out['wall']} prefixes={len(out['prefixes'])}", file=sys.stderr, flush=True)
                 for bits in out["prefixes"]:
                     w = worlds[out["widx"]]
                     pending.append((mod.__name__, out["widx"], w, bits, None, limits))
@@ -420,6 +438,8 @@ def report(mod, tier, seed, worlds, results, t0, a):
         per_world.append({"world": worlds[i]["name"], "paths": wp, "jobs": len(outs),
                           "cpu_s": round(sum(o["wall"] for o in outs), 1), "max_job_s": max((o["wall"] for o in outs), default=0)})
     complete_paths = status.get("ok", 0) + status.get("budget", 0)
+    aborted = sum(o.get("aborted", 0) for outs in results.values() for o in outs)
+    aborted_samples = [s for outs in results.values() for o in outs for s in o.get("aborted_samples", [])][:5]
     # ---- vacuity / soundness guards
     harness_errors = []
     if status.get("unsupported") or status.get("inconclusive") or tot["unknown"]:
@@ -428,6 +448,8 @@ def report(mod, tier, seed, worlds, results, t0, a):
         harness_errors.append("problems: " + "; ".join(problems[:5]))
     if mismatches:
         harness_errors.append("symbolic/concrete mismatch: " + json.dumps(mismatches[:2])[:600])
+    if aborted and aborted >= complete_paths:
+        harness_errors.append(f"every completed path was aborted by an exception of the code under test: {aborted_samples[:2]}")
     for w in per_world:
         if w["paths"] == 0:
             harness_errors.append(f"world {w['world']} explored no path")
@@ -502,6 +524,8 @@ def report(mod, tier, seed, worlds, results, t0, a):
             "violations_reported": reported, "known_findings_hit": [
                 {"signature": s, "count": d["count"], "example": d["example"]} for s, d in known_hit.items()],
             "harness_errors": harness_errors,
+            "paths_aborted_by_an_exception_of_the_code_under_test": aborted,
+            "aborted_samples": aborted_samples,
         },
         "assumptions": getattr(mod, "ASSUMPTIONS", []),
         "wall_s": round(wall, 2),
@@ -513,7 +537,7 @@ def report(mod, tier, seed, worlds, results, t0, a):
             json.dump(ev, f, indent=1, default=str)
     print(f"[{pid}] tier={tier} worlds={len(worlds)} paths={tot['paths']} complete={complete_paths} "
           f"decisions={tot['decisions']} queries={tot['queries']} solver_s={tot['solver_s']:.1f} "
-          f"validated={tot['validated']} replays={replays} wall={wall:.1f}s status={status}")
+          f"validated={tot['validated']} replays={replays} aborted={aborted} wall={wall:.1f}s status={status}")
     print(f"[{pid}] obligations: {checked}")
     if os.environ.get("VERIF_VERBOSE"):
         for pw in sorted(per_world, key=lambda x: -x["cpu_s"])[:12]:
